@@ -146,3 +146,27 @@ package server
 //@ mode nosafety
 //@ bounded 2500
 //@ ensures[C06:every-key-listed-exactly-once-across-pages] result
+
+// C31. Version-addressed requests are authorized as such: a storage call that names a version id (the literal "null"
+// included) runs under the ...Version operation, a call without one under the plain operation - a policy that allows
+// DeleteObject but denies DeleteObjectVersion is not bypassed by any spelling of the version id.
+//@ func (*Server).deleteObjectHandler
+//@ mode effects
+//@ effect[C31:version-delete-authorized-as-a-version-delete] every s.storage.DeleteObject(_, _, _, $o)
+//@     needs before s.authorizeRequest(_, $op, _, _, _, _) -> ($stop)
+//@     where !$stop && ($o != nil && $o.VersionID != nil ==> $op == authorization.OperationDeleteObjectVersion) &&
+//@         ($o == nil || $o.VersionID == nil ==> $op == authorization.OperationDeleteObject)
+
+//@ func (*Server).headObjectHandler
+//@ mode effects
+//@ effect[C31:version-head-authorized-as-a-version-read] every s.storage.HeadObject(_, _, _, $o)
+//@     needs before s.authorizeRequest(_, $op, _, _, _, _) -> ($stop)
+//@     where !$stop && ($o != nil && $o.VersionID != nil ==> $op == authorization.OperationHeadObjectVersion) &&
+//@         ($o == nil || $o.VersionID == nil ==> $op == authorization.OperationHeadObject)
+
+//@ func (*Server).getObjectHandler
+//@ mode effects
+//@ effect[C31:version-get-authorized-as-a-version-read] every s.storage.GetObject(_, _, _, _, $o)
+//@     needs before s.authorizeRequest(_, $op, _, _, _, _) -> ($stop)
+//@     where !$stop && ($o != nil && $o.VersionID != nil ==> $op == authorization.OperationGetObjectVersion) &&
+//@         ($o == nil || $o.VersionID == nil ==> $op == authorization.OperationGetObject)
